@@ -17,6 +17,15 @@ known finding D27 (key "C16:partial-labelled-barrier"): for circuits containing 
              observables supported on that barrier's qubits, where the prefix state is unambiguous) and (b) all columns
              unchanged when measurements / plain barriers are removed.  Only this kind carries the key, and it is only
              evaluated when every other oracle of the circuit is green, so nothing else can hide behind the finding.
+extension (builder xk16, kinds `column-values`, `column-values-stripped`, `column-values-off`) — ties the VALUE theorems
+             `column_state` / `column_values` / `markers_transparent_values` of Props/C16.lean: random circuits (2..5 qubits,
+             every supported gate, two-qubit gates on neighbouring qubits in both orientations) whose labelled barriers are all
+             full-width (mixed-case / padded labels, shuffled qubit order), plain barriers and measurements sprinkled, run
+             through the REAL `simulator.run` with `sample_layers=True` and a SHUFFLED observable list (one-site Paulis and
+             adjacent two-site Pauli pairs, duplicates allowed): every entry (object j, column k) against <psi_k|O_j|psi_k> of
+             the qiskit `Statevector` of the program prefix up to the k-th labelled barrier (1e-9); the circuit with ALL
+             markers removed gives the same final column; `sample_layers=False` gives exactly that column.  The event
+             sequence of each of these runs is trace-tied to `Layers.runCircuit` as well.
 """
 from __future__ import annotations
 
@@ -402,6 +411,205 @@ def _unused_count_tail(spec, params, seen, ncol):
              "nontrivial": any(op["op"] == "b" and op.get("label") is not None for op in spec["ops"])}]
 
 
+
+# ------------------------------------------------------------------------- extension xk16: the VALUES of the columns
+CV_TOL = 1e-9       # clean tree, seeds 0..9: worst deviation < 1e-12 (recorded in evidence as `cv_worst_dev`)
+CV = {"dev": 0.0, "entries": 0, "columns": 0, "circuits": 0}
+_LC_DO_RUN = lc._do_run  # noqa: SLF001
+
+
+def _cv_do_run(job):
+    """child process only: the observed run of layers_common with the observable list of this job (user's order)"""
+    if "obs_order" in job:
+        full = lc.observable_list(job["spec"]["n"])
+        sel = [full[i] for i in job["obs_order"]]
+        lc.observable_list = lambda n: sel      # the fork's private copy of the module
+    return _LC_DO_RUN(job)
+
+
+def cv_run_many(jobs):
+    """same forked children with the same hard kill as every other run of this check"""
+    lc._do_run = _cv_do_run  # noqa: SLF001
+    try:
+        return lc.run_many(jobs)
+    finally:
+        lc._do_run = _LC_DO_RUN  # noqa: SLF001
+
+
+def cv_random_gate(rng, n):
+    """every supported gate; two-qubit gates on neighbouring qubits in either orientation — the supported set of C02.
+    (Long-range two-qubit gates are NOT generated: the windowed TDVP sweep is not exact for them — e.g. ryy(-0.97) on
+    qubits (3, 0) of |11111> leaves the state unchanged on the clean tree — which is outside the property.)"""
+    return lc.random_gate(rng, n)
+
+
+def cv_circuit(rng):
+    n = rng.randrange(2, 6)
+    nseg = rng.randrange(1, 4)                   # 0..2 labelled barriers inside, sometimes one at the very start / end
+    ops = []
+    if rng.random() < 0.15:
+        ops.append(cv_full_barrier(rng, n))
+    for s in range(nseg):
+        for _ in range(rng.randrange(1, 6)):
+            r = rng.random()
+            if r < 0.12:
+                ops.append({"op": "m", "q": rng.randrange(n), "c": rng.randrange(n)})
+            elif r < 0.27:
+                ops.append({"op": "b", "qs": rng.sample(range(n), rng.randrange(1, n + 1)),
+                            "label": lc.random_label(rng, rng.choice(["none", "none", "other"]))})
+            else:
+                ops.append(cv_random_gate(rng, n))
+        if s < nseg - 1 or rng.random() < 0.2:
+            ops.append(cv_full_barrier(rng, n))
+    init = rng.choice(lc.INITS + ["basis:" + "".join(rng.choice("01") for _ in range(n))])
+    full = lc.observable_list(n)
+    k = rng.randrange(1, len(full) + 1)
+    order = [rng.randrange(len(full)) for _ in range(k)] if rng.random() < 0.3 else rng.sample(range(len(full)), k)
+    if not any(len(full[i][1]) == 2 for i in order):
+        order.insert(rng.randrange(len(order) + 1), rng.choice([i for i, o in enumerate(full) if len(o[1]) == 2]))
+    return {"kind": "column-values", "spec": {"n": n, "init": init, "ops": ops}, "obs_order": order}
+
+
+def cv_full_barrier(rng, n):
+    qs = list(range(n))
+    if rng.random() < 0.4:
+        rng.shuffle(qs)
+    if rng.random() < 0.3:      # the spellings a user would type: all lower-case, all upper-case, capitalised
+        label = rng.choice(["sample_observables", "SAMPLE_OBSERVABLES", "Sample_Observables"])
+    else:
+        label = lc.random_label(rng, rng.choice(["strict", "strict", "padded"]))
+    return {"op": "b", "qs": qs, "label": label}
+
+
+def cv_jobs(inp):
+    base = {"spec": inp["spec"], "obs_order": inp["obs_order"]}
+    return [dict(base, mode="ss"), dict(base, mode="ss", drop="all"), dict(base, mode="sp")]
+
+
+def cv_reference(spec, order, upto):
+    want = lc.reference_expectations(spec["n"], lc.reference_state(spec, upto))
+    return np.array([want[i] for i in order])
+
+
+def cv_table(res, nobs):
+    t = np.array(res["results"], dtype=float)
+    return t.reshape(nobs, -1) if t.size else t.reshape(nobs, 0)
+
+
+def cv_compare(col, want, order, n, what):
+    d = float(np.max(np.abs(col - want))) if len(want) else 0.0
+    CV["dev"] = max(CV["dev"], d)
+    CV["entries"] += len(want)
+    CV["columns"] += 1
+    if not np.all(np.isfinite(col)) or d > CV_TOL:
+        j = int(np.argmax(np.abs(col - want)))
+        lab = lc.observable_list(n)[order[j]]
+        return {"ok": False, "detail": f"{what}: object {j} of the user's list (<{lab[0]}@{lab[1]}>) holds {col[j]:.12g}, "
+                                       f"the state vector of the circuit prefix gives {want[j]:.12g}"}
+    return None
+
+
+def oracle_cv_full(spec, order, res):
+    bad = terminated(res, "sampling run (column-values)")
+    if bad:
+        return bad
+    n, ops = spec["n"], spec["ops"]
+    sampling = [i for i, op in enumerate(ops) if op["op"] == "b" and lc.label_padded(op.get("label"))]
+    t = cv_table(res, len(order))
+    if t.shape[1] != len(sampling) + 2:
+        return {"ok": False, "detail": f"{t.shape[1]} result columns for {len(sampling)} labelled barriers"}
+    if eval_columns(res) != list(range(t.shape[1])):
+        return {"ok": False, "detail": f"columns written {eval_columns(res)}, allocated 0..{t.shape[1] - 1}"}
+    uptos = [0] + sampling + [len(ops)]
+    for k, upto in enumerate(uptos):
+        what = "column 0 (initial state)" if k == 0 else (f"last column {k} (final state)" if k == len(uptos) - 1
+                                                           else f"column {k} (labelled barrier at instruction {upto})")
+        bad = cv_compare(t[:, k], cv_reference(spec, order, upto), order, n, what)
+        if bad:
+            return bad
+    CV["circuits"] += 1
+    return {"ok": True, "detail": f"{t.shape[0]} objects x {t.shape[1]} columns equal the prefix-state expectation values"}
+
+
+def oracle_cv_stripped(spec, order, full, stripped):
+    for r, what in ((full, "sampling run"), (stripped, "sampling run of the circuit without any marker")):
+        bad = terminated(r, what)
+        if bad:
+            return bad
+    n = spec["n"]
+    a, b = cv_table(full, len(order)), cv_table(stripped, len(order))
+    if b.shape[1] != 2:
+        return {"ok": False, "detail": f"circuit without markers: {b.shape[1]} columns, expected initial and final"}
+    for k, upto, what in ((0, 0, "markers removed: column 0"), (1, len(spec["ops"]), "markers removed: final column")):
+        bad = cv_compare(b[:, k], cv_reference(spec, order, upto), order, n, what)
+        if bad:
+            return bad
+    if a.shape[1] >= 2:
+        d = float(np.max(np.abs(a[:, -1] - b[:, -1])))
+        CV["dev"] = max(CV["dev"], d)
+        if d > CV_TOL:
+            return {"ok": False, "detail": f"final column changes by {d:.3g} when barriers and measurements are removed"}
+    return {"ok": True, "detail": "final column unchanged without barriers / measurements"}
+
+
+def oracle_cv_off(spec, order, full, plain):
+    for r, what in ((full, "sampling run"), (plain, "run with sample_layers=False")):
+        bad = terminated(r, what)
+        if bad:
+            return bad
+    a, b = cv_table(full, len(order)), cv_table(plain, len(order))
+    if b.shape[1] != 1 or eval_columns(plain) != [0]:
+        return {"ok": False, "detail": f"sample_layers=False: {b.shape[1]} columns, written {eval_columns(plain)}"}
+    bad = cv_compare(b[:, 0], cv_reference(spec, order, len(spec["ops"])), order, spec["n"], "sample_layers=False: the single column")
+    if bad:
+        return bad
+    if a.shape[1] >= 1 and float(np.max(np.abs(a[:, -1] - b[:, 0]))) > CV_TOL:
+        return {"ok": False, "detail": "the single column of sample_layers=False differs from the final column of the sampling run"}
+    return {"ok": True, "detail": "single column = final column"}
+
+
+def run_cv(inp, results):
+    spec, order = inp["spec"], inp["obs_order"]
+    full, stripped, plain = results
+    tied = lc.ascii_labels(spec["ops"])
+    sspec = dict(spec, ops=lc.drop_ops(spec["ops"], "all"))
+    nlab = sum(op["op"] == "b" and lc.label_padded(op.get("label")) for op in spec["ops"])
+    ngate = sum(op["op"] in ("g1", "g2") for op in spec["ops"])
+    osig = ",".join(map(str, order))
+    nt = nlab >= 1 and ngate >= 2
+    return [
+        {"kind": "column-values", "req": lc.request("run new ss", spec["ops"]) if tied else None,
+         "impl": lc.events_string(full, spec, "ss"), "oracle": oracle_cv_full(spec, order, full),
+         "sig": "cv:" + spec_sig(spec) + "|" + osig, "nontrivial": nt},
+        {"kind": "column-values-stripped", "req": lc.request("run new ss", sspec["ops"]),
+         "impl": lc.events_string(stripped, sspec, "ss"), "oracle": oracle_cv_stripped(spec, order, full, stripped),
+         "sig": "cvs:" + spec_sig(spec) + "|" + osig, "nontrivial": nt and any(lc.is_marker(op) for op in spec["ops"])},
+        {"kind": "column-values-off", "req": lc.request("run new sp", spec["ops"]) if tied else None,
+         "impl": lc.events_string(plain, spec, "sp"), "oracle": oracle_cv_off(spec, order, full, plain),
+         "sig": "cvo:" + spec_sig(spec) + "|" + osig, "nontrivial": nt},
+    ]
+
+
+def gen_cv(rng, tier):
+    """inputs of the extension; drawn from a generator of their own so that the inputs of the kinds above stay what they were"""
+    n = {"quick": 36, "thorough": 400, "search": 60}.get(tier, 36)
+    inputs = [cv_circuit(rng) for _ in range(n)]
+    jobs, owner = [], []
+    for i, inp in enumerate(inputs):
+        for j in cv_jobs(inp):
+            jobs.append(j)
+            owner.append(i)
+    res = cv_run_many(jobs) if jobs else []
+    for i, inp in enumerate(inputs):
+        PRE[key_of(inp)] = [r for r, o in zip(res, owner) if o == i]
+    return inputs
+
+
+def gen_all(rng, tier):
+    yield from gen(rng, tier)
+    yield from gen_cv(random.Random(rng.random()), tier)
+
+
 def run(inp):
     kind = str(inp["kind"]).split(":")[-1]      # "replay:corpus:modes" → "modes"
     inp = dict(inp, kind=kind)
@@ -409,6 +617,9 @@ def run(inp):
         return run_front(inp)
     if kind == "count":
         return run_count(inp)
+    if kind == "column-values":
+        results = PRE.pop(key_of(inp), None)
+        return run_cv(inp, results if results is not None else cv_run_many(cv_jobs(inp)))
     results = PRE.pop(key_of(inp), None)
     if results is None:
         results = lc.run_many(jobs_for(inp))
@@ -421,13 +632,16 @@ def spec_report():
     return [{"name": "oracle deviations on this run (clean tree: < 5e-13)", "ok": True, "worst_dev": WORST["dev"],
              "columns_compared_with_prefix_states": WORST["columns_checked"],
              "partial_labelled_barrier_columns_not_compared_by_the_unkeyed_oracles": WORST["partial_columns_skipped"],
-             "tolerance": TOL}]
+             "tolerance": TOL},
+            {"name": "column-values (extension xk16): every (object, column) entry vs prefix state vector (clean tree: < 1e-12)", "ok": True,
+             "cv_worst_dev": CV["dev"], "entries_compared": CV["entries"], "columns_compared": CV["columns"],
+             "circuits_fully_compared": CV["circuits"], "tolerance": CV_TOL}]
 
 
 if __name__ == "__main__":
     random.seed(0)
     ib.main(
-        "C16", gen, run, driver="Layers",
+        "C16", gen_all, run, driver="Layers",
         rule="distinct = different (mode, width, instruction sequence incl. marker kinds and qubit sets); nontrivial = at "
              "least one marker and two instructions (runs) / front of at least two nodes / at least one labelled barrier (count)",
         trusted_base=[
